@@ -3172,7 +3172,8 @@ class Gaussian(Preparation, Decomposition):
             for n, v in enumerate(BD_modes):
                 if not np.all(v - np.identity(2) < _decomposition_tol):
                     r = np.abs(np.arccosh(np.sum(np.diag(v)) / 2)) / 2
-                    phi = np.arctan(2 * v[0, 1] / np.sum(np.diag(v) * [1, -1]))
+                    # squeezing angle in the correct quadrant (also when v[0, 0] >= v[1, 1])
+                    phi = np.arctan2(-2 * v[0, 1], v[1, 1] - v[0, 0])
                     cmds.append(Command(Squeezed(r, phi), reg[n]))
                 else:
                     cmds.append(Command(Vac, reg[n]))
